@@ -2,6 +2,12 @@
 //! usage: e1 <property> <quick|thorough>      |      e1 replay <property> <file>
 
 mod algos;
+mod big;
+mod c10;
+mod c14;
+mod c15;
+mod c16;
+mod c17;
 mod dom;
 mod mprops;
 mod refm;
@@ -77,9 +83,55 @@ fn run_matcher_prop(id: &str, tier: &str) -> ! {
         );
         rep.acc.merge(acc);
     }
+    if matches!(id, "C01" | "C02" | "C03") {
+        // shapes on both sides of every matrix guard and needles of up to 6000 characters
+        let cases = big::big_cases(rep.is_thorough());
+        total += cases.len() as u64;
+        let acc = common::par_shards(cases.len(), common::threads(), |i, acc| {
+            let bc = &cases[i];
+            if id == "C03" && bc.cfg.prefer_prefix {
+                return;
+            }
+            let hay = algos::Text::new(&bc.hay);
+            let needle = algos::Text::new(&bc.needle);
+            let view = refm::HayView::new(&bc.hay, bc.cfg);
+            let mut ctx = dom::Ctx {
+                matcher: nucleo_matcher::Matcher::new(bc.cfg.to_config()),
+                idx: Vec::new(),
+                idx2: Vec::new(),
+            };
+            let case = dom::Case { cfg: bc.cfg, hay: &hay, view: &view, needle: &needle };
+            acc.evaluations += 1;
+            acc.count(&format!("large:{}", bc.family), 1);
+            let mut local = common::Acc::new();
+            let r = std::panic::catch_unwind(std::panic::AssertUnwindSafe(|| match id {
+                "C01" => mprops::c01_case(&case, &mut ctx, &mut local),
+                "C02" => mprops::c02_case(&case, &mut ctx, &mut local),
+                _ => mprops::c03_case(&case, &mut ctx, &mut local),
+            }));
+            // large cases: replace the full text in violation examples by a compact description
+            for (_, v) in local.violations.iter_mut() {
+                for e in v.examples.iter_mut() {
+                    *e = json!({"large_family": bc.family, "cfg": bc.cfg.tag(), "haystack_len": bc.hay.len(), "needle_len": bc.needle.len(),
+                                "haystack_head": common::show(&bc.hay[..bc.hay.len().min(8)]), "needle_head": common::show(&bc.needle[..bc.needle.len().min(8)]),
+                                "detail": {"entry": e.get("entry"), "algo": e.get("algo"), "rep": e.get("rep"), "returned": e.get("returned"), "scheme": e.get("scheme"), "match": e.get("match"), "indices_result": e.get("indices")}});
+                }
+            }
+            local.samples.clear();
+            acc.merge(local);
+            if r.is_err() {
+                acc.violation(&format!("{id}/panic-large"), "the matcher panicked on a large input", || {
+                    json!({"large_family": bc.family, "cfg": bc.cfg.tag(), "haystack_len": bc.hay.len(), "needle_len": bc.needle.len()})
+                });
+            }
+        });
+        eprintln!("[{id}] large families done: {} cases, {:.1}s", cases.len(), rep.start.elapsed().as_secs_f64());
+        rep.acc.merge(acc);
+        descr.push(json!({"name": "large-shape families", "cases": cases.len(), "shapes": "both sides of h*n=102400, n=2048, h=65535; needle lengths up to 6000 (run shapes equal/prefix-run/suffix-run/gapped)"}));
+    }
     rep.extra("domains", json!(descr));
     rep.extra("domain_size_computed", json!(total));
-    rep.exhaustive = rep.acc.evaluations == total;
+    rep.exhaustive = rep.acc.evaluations == total || (id == "C03" && rep.acc.evaluations <= total);
     if !rep.exhaustive {
         rep.caps.push(format!(
             "evaluated {} of {} cases",
@@ -109,8 +161,36 @@ fn run_matcher_prop(id: &str, tier: &str) -> ! {
     rep.finish()
 }
 
-fn replay_matcher_prop(id: &str, file: &str) -> ! {
+fn replay_matcher_case(id: &str, c: &common::Value, acc: &mut common::Acc) {
     use algos::Text;
+    let cfg = Cfg::from_tag(c["cfg"].as_str().unwrap_or("INpx"));
+    let hay = Text::new(&common::parse_cps(&c["haystack"]));
+    let needle = Text::new(&common::parse_cps(&c["needle"]));
+    let view = refm::HayView::new(&hay.chars, cfg);
+    let mut ctx = dom::Ctx {
+        matcher: nucleo_matcher::Matcher::new(cfg.to_config()),
+        idx: Vec::new(),
+        idx2: Vec::new(),
+    };
+    let case = dom::Case {
+        cfg,
+        hay: &hay,
+        view: &view,
+        needle: &needle,
+    };
+    match id {
+        "C01" => mprops::c01_case(&case, &mut ctx, acc),
+        "C02" => mprops::c02_case(&case, &mut ctx, acc),
+        "C03" => mprops::c03_case(&case, &mut ctx, acc),
+        "C04" => mprops::c04_case(&case, &mut ctx, acc),
+        "C05" => mprops::c05_case(&case, &mut ctx, acc),
+        _ => unreachable!(),
+    }
+}
+
+/// Replays every case of a replay file twice (observations must be identical) and prints
+/// which violations the current tree still shows.
+fn replay_generic(id: &str, file: &str, f: &dyn Fn(&common::Value, &mut common::Acc)) -> ! {
     let text = std::fs::read_to_string(file)
         .unwrap_or_else(|e| machinery_failure(&format!("cannot read {file}: {e}")));
     let v: common::Value = serde_json::from_str(&text)
@@ -123,33 +203,10 @@ fn replay_matcher_prop(id: &str, file: &str) -> ! {
         .map(|k| k.signature)
         .collect();
     for c in &cases {
-        let cfg = Cfg::from_tag(c["cfg"].as_str().unwrap_or("INpx"));
-        let hay = Text::new(&common::parse_cps(&c["haystack"]));
-        let needle = Text::new(&common::parse_cps(&c["needle"]));
-        let view = refm::HayView::new(&hay.chars, cfg);
         let mut observations = Vec::new();
-        // the same case is executed twice and must give identical observations
         for _ in 0..2 {
-            let mut ctx = dom::Ctx {
-                matcher: nucleo_matcher::Matcher::new(cfg.to_config()),
-                idx: Vec::new(),
-                idx2: Vec::new(),
-            };
-            let case = dom::Case {
-                cfg,
-                hay: &hay,
-                view: &view,
-                needle: &needle,
-            };
             let mut acc = common::Acc::new();
-            let r = std::panic::catch_unwind(std::panic::AssertUnwindSafe(|| match id {
-                "C01" => mprops::c01_case(&case, &mut ctx, &mut acc),
-                "C02" => mprops::c02_case(&case, &mut ctx, &mut acc),
-                "C03" => mprops::c03_case(&case, &mut ctx, &mut acc),
-                "C04" => mprops::c04_case(&case, &mut ctx, &mut acc),
-                "C05" => mprops::c05_case(&case, &mut ctx, &mut acc),
-                _ => unreachable!(),
-            }));
+            let r = std::panic::catch_unwind(std::panic::AssertUnwindSafe(|| f(c, &mut acc)));
             let mut obs: Vec<String> = acc
                 .violations
                 .iter()
@@ -163,12 +220,7 @@ fn replay_matcher_prop(id: &str, file: &str) -> ! {
         if observations[0] != observations[1] {
             machinery_failure("replay is not deterministic");
         }
-        println!(
-            "case cfg={} haystack={:?} needle={:?}",
-            cfg.tag(),
-            hay.chars.iter().collect::<String>(),
-            needle.chars.iter().collect::<String>()
-        );
+        println!("case {}", serde_json::to_string(c).unwrap().chars().take(300).collect::<String>());
         let mut bad = false;
         for o in &observations[0] {
             if known.iter().any(|k| o.starts_with(&format!("{k}:"))) {
@@ -199,12 +251,26 @@ fn main() {
         }
         dom::quiet_panics();
         match args[2].as_str() {
-            "C01" | "C02" | "C03" | "C04" | "C05" => replay_matcher_prop(&args[2], &args[3]),
+            "C01" | "C02" | "C03" | "C04" | "C05" => {
+                let id = args[2].clone();
+                replay_generic(&args[2], &args[3], &move |c, acc| replay_matcher_case(&id, c, acc))
+            }
+            "C14" => replay_generic("C14", &args[3], &c14::replay_case),
+            "C17" => replay_generic("C17", &args[3], &c17::replay_case),
             other => machinery_failure(&format!("no replay for {other}")),
         }
     }
     match args[1].as_str() {
         "C01" | "C02" | "C03" | "C04" | "C05" => run_matcher_prop(&args[1], &args[2]),
+        "C10" => c10::run(&args[2]),
+        "C14" => c14::run(&args[2]),
+        "C15" => c15::run(&args[2]),
+        "C17" => c17::run(&args[2]),
+        "C16" => {
+            let p = std::env::var("VERIF_UNICODE_REF")
+                .unwrap_or_else(|_| machinery_failure("VERIF_UNICODE_REF not set (run through run.sh)"));
+            c16::run(&args[2], &p)
+        }
         other => machinery_failure(&format!("unknown property {other}")),
     }
 }
